@@ -79,6 +79,8 @@ def build(chk, sc, cfgseed, axes, ext0=None, scale=None):
     d = os.path.join(chk.tmp_reuse(), "plt00300")
     os.makedirs(os.path.dirname(d))
     gamma.write_plotfile(d, ap, cfg_, values=flds.values)
+    if cfgseed % 5 == 2:
+        gamma.add_stale_files(d, ap, cfg_, cfgseed)         # left-overs of an earlier, larger plotfile in the same directory
     return d, cfg_, lat, flds
 
 
